@@ -6,6 +6,7 @@ TABLE = [
  ("C_G",      "import pytest\n@pytest.fixture\ndef g():  return 1\n"),                      # f renamed to g
  ("C_F_MOVED", "import pytest\n\n\n@pytest.fixture\ndef f(g): return g\n@pytest.fixture\ndef g(): return 2\n"),  # f on another line, with a usage, plus g
  ("C_FF",     "import pytest\n@pytest.fixture\ndef f(): return 1\nclass T:\n    @pytest.fixture\n    def f(self): return 2\n"),  # same name twice in one file
+ ("C_F_LINE", "import pytest\n\n\n\n@pytest.fixture\ndef f(): return 1\n"),                 # same name set as C_F, f on another line
  ("C_BAD",    "def ("),                                                                      # unparsable
  ("C_EMPTY",  ""),
  ("C_COMMENT", "# nothing here\n"),                                                          # parses, zero statements
@@ -139,6 +140,9 @@ def test_u(fa):
     fm
     fl = 2
     fl
+def test_v():
+    global fm
+    fm += 1
 """),
  # ---- C15: positions. Non-ASCII text before a token; string-literal forms in usefixtures.
  ("D_POS_UTF16", """import pytest
@@ -181,4 +185,25 @@ class TestK:
  ("D_TYPING_COMMA", "import pytest\n@pytest.fixture\ndef fy(a,"),
  ("D_TYPING_USEFIX", "import pytest\n\n@pytest.mark.usefixtures("),
  ("D_TYPING_HELPER", "import pytest\ndef helper("),
+]
+
+# ---- conftest texts the F1 world generator produces for an importing conftest without own fixtures
+# (file_text(world, C1/C0)); used by the harnesses that run the REAL import walk instead of the import oracle
+TABLE += [
+ ("W_C1_STAR",    "import pytest\nfrom .m import *\n"),
+ ("W_C1_NAME",    "import pytest\nfrom .m import f\n"),
+ ("W_C1_PLUGINS", "import pytest\npytest_plugins = [\"m\"]\n"),
+ ("W_C0_STAR",    "import pytest\nfrom a.m import *\n"),
+ ("W_C0_NAME",    "import pytest\nfrom a.m import f\n"),
+ ("W_C0_PLUGINS", "import pytest\npytest_plugins = [\"a.m\"]\n"),
+ ("W_NO_IMPORT",  "import pytest\n#\n"),
+]
+
+# ---- same-length edit of a long file (> 256 bytes, identical first and last 128 bytes): a space after a comma
+# becomes a newline, so every later line number and column changes while length, head and tail stay the same
+_HEAD = "# " + "h" * 130 + "\n"
+_TAIL = "# " + "t" * 130 + "\n"
+TABLE += [
+ ("L_ONE_LINE",  _HEAD + "def test_long(aaaa, bbbb): pass\n" + _TAIL),
+ ("L_TWO_LINES", _HEAD + "def test_long(aaaa,\nbbbb): pass\n" + _TAIL),
 ]
